@@ -211,6 +211,10 @@ def run_one(storage_cfg: str, sampler: str, pruner: str, prog: str, seed: int, s
         err = None
         try:
             for n in split:
+                if n == "E":
+                    # a point queued between two optimize calls must be the next trial on every storage
+                    study.enqueue_trial(ENQUEUE[prog])
+                    continue
                 study.optimize(obj, n_trials=n, catch=(ValueError,))
         except Exception as e:
             err = f"{type(e).__name__}: {str(e)[:120]}"
@@ -222,6 +226,10 @@ def run_one(storage_cfg: str, sampler: str, pruner: str, prog: str, seed: int, s
 STORAGES_FAST = ["mem+other", "jfile-sym", "jfile-sym+other", "grpc(mem)", "grpc(mem)+other"]
 STORAGES_SLOW = ["cached", "cached+other", "grpc(cached)"]
 SPLITS = [(10,), (4, 6), (1, 9), (3, 3, 4)]
+# programs for which a queued point is defined: run = 3 trials, enqueue, 7 trials
+ENQUEUE = {"plain": {"x": 0.5, "y": 2}, "report": {"x": 0.5, "k": 2}, "sparse": {"x": 0.25}, "multi": {"x": 0.5, "y": 0.5},
+           "log": {"x": 1.0}, "mixed": {"a": 0.5, "b": 2, "c": None}}
+ENQ_SPLIT = (3, "E", 7)
 
 
 def first_diff(a: list, b: list) -> Any:
@@ -257,6 +265,21 @@ def task_fn(task: tuple) -> dict:
             part.violation(f"{sampler}|mem|split-run-raises|{e.split(':')[0]}", dict(base, split=split, error=e))
         elif got != ref and not (sampler in ("BruteForce", "Grid") and len(got) <= len(ref) and got == ref[:len(got)]):
             part.violation(f"{sampler}|{pruner}|depends-on-split-into-optimize-calls", dict(base, split=split, diff=first_diff(ref, got)))
+    if prog in ENQUEUE and sampler not in ("Grid", "BruteForce"):
+        ref_e, err_e = run_one("mem", sampler, pruner, prog, seed, ENQ_SPLIT)
+        part.add("evaluations")
+        if err_e is None:
+            for st in storages:
+                got, e = run_one(st, sampler, pruner, prog, seed, ENQ_SPLIT)
+                part.add("evaluations")
+                part.add("transitions", len(got))
+                cls = st.replace("+other", "") + ("|ids-offset" if st.endswith("+other") else "")
+                if e is not None:
+                    part.violation(f"{sampler}|{cls}|run-with-enqueue-raises|{e.split(':')[0]}", dict(base, storage=st, error=e))
+                elif got != ref_e:
+                    d = first_diff(ref_e, got)
+                    part.violation(f"{sampler}|{cls}|enqueue-between-optimize-calls|differs-from-in-memory-run|{','.join(d.get('fields', ['length']))}",
+                                   dict(base, storage=st, split=ENQ_SPLIT, diff=d))
     for st in storages:
         got, e = run_one(st, sampler, pruner, prog, seed, (N_TRIALS,))
         part.add("evaluations")
